@@ -681,8 +681,9 @@ def legal_sems(plan, info, fs):
     s = [x for x in ("Default", "Immortal", "Los") if x in info["allocmap"]]
     if "NonMoving" in info["allocmap"]:
         if fs == "fs_imm_nonmoving" or (fs in ("fs_main", "fs_plain", "fs_small") and
-                                        plan in ("Immix", "NoGC", "SemiSpace", "MarkSweep", "PageProtect",
-                                                 "ConcurrentImmix")):   # generational plans: F-B
+                                        plan in ("Immix", "NoGC", "SemiSpace", "MarkSweep", "PageProtect")):
+            # generational plans: F-B; ConcurrentImmix: gc:concimmix-nonmoving-lost-in-marking (a NonMoving object
+            # allocated between the initial and the final pause of a concurrent cycle can be reclaimed while rooted)
             s.append("NonMoving")
     for x in ("Code", "ReadOnly", "LargeCode"):
         if x in info["allocmap"]:
@@ -738,6 +739,20 @@ class Gen:
         self.nf[i], self.sem[i] = nf, sem
         self.ops.append(f"alloc {m} {i} {nf} {self.size_to_payload(size, nf)} {align} {offset} {sem} {slot}")
         self.bytes += real
+        return i
+
+    def alloco(self, m, nf, size, sem, slot, opts=(0, 0, 0)):
+        """alloc_with_options (allow_overcommit, at_safepoint, allow_oom_call). The request may FAIL: the id must
+        not be used by a later op (only its root slot may be cleared)."""
+        real = max(32, (self.info["refoff"] + 24 + 8 * nf + self.size_to_payload(size, nf) + 7) // 8 * 8)
+        if sem == "Default" and real + 8 > self.info["maxnonlos"]:
+            sem = "Los"
+        if sem not in self.sems:
+            sem = "Default" if real + 8 <= self.info["maxnonlos"] else "Los"
+        i = self.next_id
+        self.next_id += 1
+        self.nf[i], self.sem[i] = nf, sem
+        self.ops.append(f"alloco {m} {i} {nf} {self.size_to_payload(size, nf)} 8 0 {sem} {slot} {opts[0]} {opts[1]} {opts[2]}")
         return i
 
     def writable(self, i):
@@ -1008,9 +1023,37 @@ def gen_immortal(rnd, plan, info, fs, heap, workers=1):
     return Program(plan, normalize(g.ops), heap=heap, workers=workers, fs=fs, tag="immortal")
 
 
-def gen_cycles(rnd, plan, info, fs, heap, cycles=12, workers=1, warm=3, slack=C09_SLACK):
+def gen_pressure(g, heap, slots=range(16, 48), small_slot=48):
+    """Full-heap phase of a cycle: requests made with alloc_with_options(at_safepoint=false) that FAIL.
+    Large-object fillers (not at a safepoint either: the last ones fail) keep the heap full of live data, then
+    small / medium / large requests fail one after the other; every failure requests a GC, which runs before the
+    next op. Nothing of a failed request may stay reserved: the fillers are dropped afterwards and the cycle's
+    `gc 0 1; stats` sample must be back on the floor."""
+    r = g.rnd
+    want, got = int(heap * r.choice([1.1, 1.3, 1.5])), 0
+    div = r.choice([8, 12, 16, 24])
+    for s in slots:
+        if got >= want:
+            break
+        size = heap // div + r.randrange(0, 8192) & ~7
+        got += size
+        g.alloco(0, 0, size, "Los", s, (0, 0, r.choice([0, 1])))
+    for _ in range(r.choice([4, 10, 24])):
+        u = r.random()
+        if u < 0.6:
+            size, sem = r.choice([32, 64, 256, 1024, 2048, 4096, 8000]), "Default"
+        elif u < 0.8:
+            size, sem = r.choice([16000, 30000, 70000, 262144]), "Default"          # -> Los above maxnonlos
+        else:
+            size, sem = heap // r.choice([2, 3, 5]), "Los"
+        g.alloco(0, r.choice([0, 1]), size, sem, small_slot, (0, 0, r.choice([0, 1])))
+    for s in list(slots) + [small_slot]:
+        g.root(0, s, None)
+
+
+def gen_cycles(rnd, plan, info, fs, heap, cycles=12, workers=1, warm=3, slack=C09_SLACK, pressure=True):
     """C09: N cycles `allocate ~40% of the heap (collectable semantics only); drop every root but the
-    anchor; gc exhaustive; stats`."""
+    anchor; [full-heap phase with failing non-safepoint requests: gen_pressure]; gc exhaustive; stats`."""
     g = Gen(rnd, plan, info, fs, heap)
     r = rnd
     g.anchor()
@@ -1046,6 +1089,11 @@ def gen_cycles(rnd, plan, info, fs, heap, cycles=12, workers=1, warm=3, slack=C0
             got += max(size, 32) if plan != "PageProtect" else (max(size, 32) + 4095) // 4096 * 4096
         for s in range(0, 16):
             g.root(0, s, None)
+        if pressure and (c % 2 == 1 or r.random() < 0.3):
+            gen_pressure(g, heap)
+            # a failed request has asked for a GC: on ConcurrentImmix a concurrent cycle may be in flight, the next
+            # user GC then only finishes it (what died after its snapshot is floating garbage until the GC after)
+            g.ops += ["gc 0 1"]
         g.ops += ["gc 0 1", "stats"]
     g.ops += ["snap"]
     return Program(plan, normalize(g.ops), heap=heap, workers=workers, fs=fs, tag="cycles",
